@@ -8,7 +8,7 @@
 From Coq Require Import List Arith Bool NArith.
 From FFSM2 Require Import Model.TaskList Model.BitArray Model.BitStream Model.Plan Model.Ancestors Model.Machine
   Proofs.BitArrayProofs Proofs.TaskListProofs Proofs.TaskListRun Proofs.PlanProofs Proofs.MachineFrame Proofs.MachinePlan Proofs.MachineLife Proofs.GuardProofs Proofs.CycleProofs Proofs.PlanStep
-  Proofs.SerialProofs Proofs.LogProofs Proofs.MachineTop Model.Multi Generated.InitFacts Proofs.ConstructProofs Proofs.LifeMonitor Proofs.ActivationRounds Proofs.IndexSafety Proofs.FeatureProofs Model.Script Proofs.Contract Proofs.Histories Proofs.StatusBits.
+  Proofs.SerialProofs Proofs.LogProofs Proofs.MachineTop Model.Multi Generated.InitFacts Proofs.ConstructProofs Proofs.LifeMonitor Proofs.ActivationRounds Proofs.IndexSafety Proofs.FeatureProofs Model.Script Proofs.Contract Proofs.Histories Proofs.StatusBits Proofs.Worlds Model.Cxx Generated.LeafCode Proofs.LeafTactics Proofs.LeafConsts Proofs.LeafCodeTaskList.
 Import ListNotations.
 
 (* update(): the oldest events of the call are exactly preUpdate(root), preUpdate(a), update(root), update(a),
@@ -27,10 +27,10 @@ Theorem C05_update_order :
          RW P cfg (co P s) ->
          PI (plan P (co P s)) ->
          exists l_rest l_phase : list (event P),
-           tr P (update P cfg orc s) = l_rest ++ l_phase ++ tr P s /\
+           tr P (Machine.update P cfg orc s) = l_rest ++ l_phase ++ tr P s /\
            cbs P l_phase = expected_cbs cfg (update_phases a) /\
            Forall (phase_ev P cfg a MPreUpdate MUpdate MPostUpdate) l_phase /\
-           (forall (x y : list (event P)) (w : who) (r : recipient) (m : method) (v : Machine.view P),
+           (forall (x y : list (event P)) (w : who) (r : recipient) (m : Ancestors.method) (v : Machine.view P),
             x ++ EvCb P w r m v :: y = l_rest ++ l_phase ->
             is_transition_method m = true -> exists y' : list (event P), y = y' ++ l_phase) /\
            Forall (kview P (mk_ctl P KFull (t_empty P) (t_empty P))) l_phase.
@@ -53,7 +53,7 @@ Theorem C05_react_order :
            tr P (react P cfg orc s) = l_rest ++ l_phase ++ tr P s /\
            cbs P l_phase = expected_cbs cfg (react_phases a) /\
            Forall (phase_ev P cfg a MPreReact MReact MPostReact) l_phase /\
-           (forall (x y : list (event P)) (w : who) (r : recipient) (m : method) (v : Machine.view P),
+           (forall (x y : list (event P)) (w : who) (r : recipient) (m : Ancestors.method) (v : Machine.view P),
             x ++ EvCb P w r m v :: y = l_rest ++ l_phase ->
             is_transition_method m = true -> exists y' : list (event P), y = y' ++ l_phase) /\
            Forall (kview P (mk_ctl P KFull (t_empty P) (t_empty P))) l_phase.
@@ -66,7 +66,7 @@ Theorem C05_cycle_shape :
   forall (P : Type) (cfg : config) (orc : oracle P) (PI : plan_data P -> Prop),
          plan_inv_ok P cfg PI ->
          wf_oracle P cfg orc ->
-         forall (mpre mmid mpost : method) (s : mstate P) (a : nat),
+         forall (mpre mmid mpost : Ancestors.method) (s : mstate P) (a : nat),
          c_cap cfg <= 255 ->
          active P (co P s) = a ->
          a < c_n cfg ->
@@ -103,7 +103,7 @@ Print Assumptions C05_query.
 
 (* a sequence of deliveries reaches exactly the expected recipients, once each, in order *)
 Theorem C05_exactly_once_in_order :
-  forall (P : Type) (cfg : config) (a : nat) (ds : list (who * method)) (l : list (event P)),
+  forall (P : Type) (cfg : config) (a : nat) (ds : list (who * Ancestors.method)) (l : list (event P)),
          delivs P cfg a ds l -> cbs P l = expected_cbs cfg ds.
 Proof. exact (delivs_cbs). Qed.
 Print Assumptions C05_exactly_once_in_order.
@@ -115,12 +115,12 @@ Theorem C05_every_cycle_of_every_history :
          wf_cfg cfg ->
          wf_oracle P cfg orc ->
          forall (lg : bool) (pre : list (api_op P)) (op : api_op P) (post : list (api_op P))
-           (mpre mmid mpost : method),
+           (mpre mmid mpost : Ancestors.method),
          ops_ok P cfg orc (construct P cfg orc lg) (pre ++ op :: post) ->
          is_cycle_op P op = Some (mpre, mmid, mpost) ->
-         let s := run P cfg orc lg pre in
+         let s := Machine.run P cfg orc lg pre in
          let a := active P (co P s) in
-         let s' := run P cfg orc lg (pre ++ [op]) in
+         let s' := Machine.run P cfg orc lg (pre ++ [op]) in
          a < c_n cfg /\
          Inv P cfg s' /\
          active P (co P s') < c_n cfg /\
@@ -141,9 +141,9 @@ Theorem C05_every_query_of_every_history :
          wf_oracle P cfg orc ->
          forall (lg : bool) (pre post : list (api_op P)),
          ops_ok P cfg orc (construct P cfg orc lg) (pre ++ OQuery P :: post) ->
-         let s := run P cfg orc lg pre in
+         let s := Machine.run P cfg orc lg pre in
          let a := active P (co P s) in
-         let s' := run P cfg orc lg (pre ++ [OQuery P]) in
+         let s' := Machine.run P cfg orc lg (pre ++ [OQuery P]) in
          co P s' = co P s /\
          (exists l : list (event P), tr P s' = l ++ tr P s /\ delivs P cfg a [(Root, MQuery); (St a, MQuery)] l).
 Proof. exact (every_query_of_every_history). Qed.
